@@ -57,6 +57,10 @@ type c02Step struct {
 type c02Script struct {
 	Kind  string    `json:"kind"`
 	Steps []c02Step `json:"steps"`
+	// Reuse: the handler produces every write from ONE scratch buffer which it
+	// overwrites for the next write and scribbles over afterwards (bufio / io.Copy
+	// style). http.ResponseWriter.Write must not retain the slice.
+	Reuse bool `json:"reuse_buffer,omitempty"`
 }
 
 // c02Bytes is the payload of the write at step index i of run id: recognisable
@@ -234,7 +238,7 @@ func c02GenFast(r *rand.Rand, allow5xx bool) *c02Script {
 		st = c02Insert(r, st, c02Step{Op: "yield"}, 0)
 	}
 	st = c02AddWriterCalls(r, st)
-	return &c02Script{Kind: "fast", Steps: st}
+	return &c02Script{Kind: "fast", Steps: st, Reuse: r.Intn(3) == 0}
 }
 
 // c02AddWriterCalls sprinkles the optional ResponseWriter interfaces over a
@@ -253,7 +257,7 @@ func c02AddWriterCalls(r *rand.Rand, st []c02Step) []c02Step {
 		}
 	}
 	if first < len(st) && r.Intn(5) == 0 {
-		st = c02Insert(r, st, c02Step{Op: "flush"}, first+1)
+		st = c02Insert(r, st, c02Step{Op: []string{"flush", "flushrc"}[r.Intn(2)]}, first+1)
 	}
 	if r.Intn(8) == 0 {
 		st = c02Insert(r, st, c02Step{Op: "push"}, 0)
@@ -272,6 +276,24 @@ func c02AddWriterCalls(r *rand.Rand, st []c02Step) []c02Step {
 func c02GenLate(r *rand.Rand) *c02Script {
 	st := c02GenResponseSteps(r, false)
 	st = c02Insert(r, st, c02Step{Op: "block"}, 0)
+	// A handler may try to flush what it has produced so far (before / between its
+	// writes) and then overrun: whatever the writer does with Flush, nothing written
+	// before the deadline may reach the client.
+	if r.Intn(2) == 0 {
+		b := 0
+		for i, x := range st {
+			if x.Op == "block" {
+				b = i
+			}
+		}
+		for k := 1 + r.Intn(2); k > 0; k-- {
+			p := r.Intn(b + 1)
+			out := append([]c02Step{}, st[:p]...)
+			out = append(out, c02Step{Op: []string{"flush", "flushrc"}[r.Intn(2)]})
+			st = append(out, st[p:]...)
+			b++
+		}
+	}
 	// make sure something is attempted after the deadline in most cases
 	if r.Intn(4) > 0 {
 		st = append(st, c02Step{Op: "write", N: 1 + r.Intn(100)})
@@ -279,7 +301,7 @@ func c02GenLate(r *rand.Rand) *c02Script {
 	if r.Intn(4) == 0 {
 		st = append(st, c02Step{Op: "status", N: 202})
 	}
-	return &c02Script{Kind: "late", Steps: st}
+	return &c02Script{Kind: "late", Steps: st, Reuse: r.Intn(4) == 0}
 }
 
 func c02GenLatePanic(r *rand.Rand) *c02Script {
@@ -409,7 +431,7 @@ func c02GenRacing(r *rand.Rand, d time.Duration) *c02Script {
 	}
 	if r.Intn(3) == 0 {
 		st = c02Insert(r, st, c02Step{Op: "ctxwait"}, 0)
-		return &c02Script{Kind: "racing", Steps: st}
+		return &c02Script{Kind: "racing", Steps: st, Reuse: r.Intn(2) == 0}
 	}
 	total := time.Duration(float64(d) * (0.3 + 1.4*r.Float64()))
 	k := 1 + r.Intn(6)
@@ -456,6 +478,7 @@ type c02Run struct {
 	blockedCh  chan struct{}
 	parkedCh   chan struct{}
 	returnedCh chan struct{}
+	reqHdr     [][2]string // extra request headers of this run
 	entries    int32
 	sawDone    int32
 	once       [4]sync.Once
@@ -521,6 +544,7 @@ func (run *c02Run) exec(w http.ResponseWriter, r *http.Request) {
 		run.mu.Unlock()
 		run.once[3].Do(func() { close(run.returnedCh) })
 	}()
+	var scratch []byte
 	for i, st := range run.script.Steps {
 		switch st.Op {
 		case "hdr":
@@ -535,8 +559,21 @@ func (run *c02Run) exec(w http.ResponseWriter, r *http.Request) {
 			run.add(c02Ev{Step: i, Op: "status", N: st.N, Before: b, After: vk.Seq()})
 		case "write":
 			p := c02Bytes(run.id, i, st.N)
+			if run.script.Reuse {
+				if cap(scratch) < len(p) {
+					scratch = make([]byte, len(p), 2*len(p)+16)
+				}
+				scratch = scratch[:len(p)]
+				copy(scratch, p)
+				p = scratch
+			}
 			b := vk.Seq()
 			n, err := w.Write(p)
+			if run.script.Reuse {
+				for k := range scratch { // the buffer is the handler's again
+					scratch[k] = '#'
+				}
+			}
 			ev := c02Ev{Step: i, Op: "write", N: n, Before: b, After: vk.Seq()}
 			if err != nil {
 				ev.Err = err.Error()
@@ -586,6 +623,15 @@ func (run *c02Run) exec(w http.ResponseWriter, r *http.Request) {
 			if f, ok := w.(http.Flusher); ok {
 				f.Flush()
 				ev.N = 1
+			}
+			ev.After = vk.Seq()
+			run.add(ev)
+		case "flushrc": // the Go 1.20 way: http.NewResponseController(w).Flush()
+			ev := c02Ev{Step: i, Op: "flush", Before: vk.Seq()}
+			if err := http.NewResponseController(w).Flush(); err == nil {
+				ev.N = 1
+			} else {
+				ev.Err = err.Error()
 			}
 			ev.After = vk.Seq()
 			run.add(ev)
@@ -717,9 +763,29 @@ func (e *c02Env) handle(w http.ResponseWriter, r *http.Request) {
 	v.(*c02Run).exec(w, r)
 }
 
+// c02HostileHeaders: proxy headers as a hostile or broken front end may send
+// them. The guards read them on their logging / failure paths; they must not
+// change any answer.
+var c02HostileHeaders = [][2]string{
+	{"X-Forwarded-For", ","},
+	{"X-Forwarded-For", " , ,  "},
+	{"X-Forwarded-For", " "},
+	{"X-Forwarded-For", "10.0.0.1, 10.0.0.2,"},
+	{"X-Forwarded-For", "客户端, ::1, unknown"},
+	{"X-Forwarded-For", strings.Repeat("1.2.3.4, ", 900)},
+	{"X-Real-IP", ","},
+	{"X-Real-IP", strings.Repeat("f", 4000)},
+	{"X-Forwarded-For", "%s%n%!(EXTRA)"},
+}
+
 func (e *c02Env) newRun(rt *c02Route, sc *c02Script) *c02Run {
-	id := fmt.Sprintf("%s-%d", e.tag, atomic.AddInt64(&e.nextID, 1))
-	run := &c02Run{id: id, script: sc, route: rt,
+	n := atomic.AddInt64(&e.nextID, 1)
+	id := fmt.Sprintf("%s-%d", e.tag, n)
+	var rh [][2]string
+	if n%3 == 0 { // every third request, cycling through the list
+		rh = append(rh, c02HostileHeaders[int(n/3)%len(c02HostileHeaders)])
+	}
+	run := &c02Run{id: id, script: sc, route: rt, reqHdr: rh,
 		gate: make(chan struct{}), enteredCh: make(chan struct{}), blockedCh: make(chan struct{}),
 		parkedCh: make(chan struct{}), returnedCh: make(chan struct{})}
 	e.runs.Store(id, run)
@@ -889,7 +955,7 @@ func (c *c02Ctx) violate(sig string, run *c02Run, resp *c02Resp, format string, 
 	d := fmt.Sprintf(format, a...)
 	extra := ""
 	if run != nil {
-		extra = fmt.Sprintf("run=%s route=%s timeout=%v script=%s events=%s", run.id, run.route.Path, run.route.Timeout, vk.JSON(run.script), vk.JSON(run.events()))
+		extra = fmt.Sprintf("run=%s route=%s timeout=%v request_headers=%.120q script=%s events=%s", run.id, run.route.Path, run.route.Timeout, run.reqHdr, vk.JSON(run.script), vk.JSON(run.events()))
 	}
 	if resp != nil {
 		d += " | client saw: " + resp.String()
